@@ -17,16 +17,16 @@
 (***************************************************************************)
 EXTENDS Naturals, Integers, Sequences, FiniteSets, TLC, ReportStr
 
-CONSTANTS Names,      \* byte strings used as group and test names (non-empty, without byte 122 'z')
-          Files,      \* byte strings used as source paths
-          Msgs,       \* failure messages
+CONSTANTS Names,      \* byte strings used as group and test names (ANY byte string without byte 122 'z': the empty name is a name)
+          Files,      \* byte strings used as source paths (the empty path included)
+          Msgs,       \* failure messages (the empty message included)
           Texts,      \* texts printed by tests
           LineNos,    \* line numbers
           MaxGroups, MaxTests, MaxFails, MaxPrints     \* bounds on a run (model checking / generation only)
 
 VARIABLES phase,   \* "idle" | "run" | "group" | "test" | "done"
           runIgn,  \* run-ignored mode (-ri): ignored tests run like normal ones
-          grp,     \* name of the open (or of the last closed) group; <<>> before the first
+          grp,     \* name of the open (or of the last closed) group; NoGroup before the first
           tst,     \* the open test [name, file, line, ign]
           out,     \* service messages emitted so far
           scan,    \* reader's view of `out': stack of open suite/test items and whether every message so far fitted
@@ -100,9 +100,12 @@ FeedAll(st, ms) == Fold(Feed, st, ms)
 Emit(ms) == out' = out \o ms /\ scan' = FeedAll(scan, ms)
 Silent == UNCHANGED <<out, scan>>
 
-NoTest == [name |-> <<>>, file |-> <<>>, line |-> 0, ign |-> FALSE]
+\* "no test open" / "no group seen yet" are states of their own, not names: the empty byte string is a legal test name and a
+\* legal group name, and a test or group so named is started and finished like any other.
+NoTest  == [name |-> <<Bad>>, file |-> <<>>, line |-> 0, ign |-> FALSE]
+NoGroup == <<Bad>>
 
-Init == /\ phase = "idle" /\ runIgn = FALSE /\ grp = <<>> /\ tst = NoTest /\ out = <<>>
+Init == /\ phase = "idle" /\ runIgn = FALSE /\ grp = NoGroup /\ tst = NoTest /\ out = <<>>
         /\ scan = [stack |-> <<>>, ok |-> TRUE]
         /\ cnt = [g |-> 0, t |-> 0, f |-> 0, p |-> 0]
 
@@ -112,7 +115,8 @@ TestsStarted(ri) ==
     /\ Silent /\ UNCHANGED <<grp, tst, cnt>>
 
 \* first test of a group (whether it will run or not) -> printCurrentGroupStarted.
-\* The registry takes a change of the group name as the group boundary, so the name differs from the previous group's.
+\* The registry takes a change of the group name as the group boundary, so the name differs from the previous group's;
+\* the first group of a run may have any name (grp = NoGroup differs from every name, the empty one included).
 GroupStarted(g) ==
     /\ phase = "run" /\ phase' = "group" /\ g # grp /\ grp' = g
     /\ Emit(<<Msg("testSuiteStarted", [name |-> g])>>)
